@@ -15,8 +15,9 @@ static HELD: AtomicBool = AtomicBool::new(false);
 static RELEASE: AtomicBool = AtomicBool::new(false);
 
 fn probe(stage: u8) {
-    if stage == HOLD_STAGE.load(Ordering::SeqCst) {
-        HELD.store(true, Ordering::SeqCst);
+    // only the first thread to reach the stage is held (the initialiser); with a correct once-cell
+    // nobody else can get here, and if somebody does (a second initialiser) it must not be masked
+    if stage == HOLD_STAGE.load(Ordering::SeqCst) && !HELD.swap(true, Ordering::SeqCst) {
         while !RELEASE.load(Ordering::SeqCst) {
             std::thread::sleep(Duration::from_millis(1));
         }
@@ -78,6 +79,7 @@ pub fn main(args: &[String]) {
         "initprobe" => {
             let stage: u8 = args[1].parse().unwrap();
             let (a_act, b_act) = (args[2].clone(), args[3].clone());
+            let b_act_is_override = b_act == "override";
             HOLD_STAGE.store(stage, Ordering::SeqCst);
             verif_hooks::set_init_probe(probe);
             let ta = std::thread::spawn(move || action(&a_act, 0));
@@ -98,7 +100,8 @@ pub fn main(args: &[String]) {
             RELEASE.store(true, Ordering::SeqCst);
             let ra = ta.join().unwrap_or_else(|_| "panic".into());
             let rb = tb.join().unwrap_or_else(|_| "panic".into());
-            println!("held={} b_early={} a={} b={}", held, b_returned_while_held, ra, rb);
+            let fin = if b_act_is_override { format!(" final:max={}", show(execute("max(1, 2)", Context::new()))) } else { String::new() };
+            println!("held={} b_early={} a={} b={}{}", held, b_returned_while_held, ra, rb, fin);
         }
         // one <tid> <action> : a single call, alone in the process (sequential reference)
         "one" => {
@@ -125,6 +128,10 @@ pub fn main(args: &[String]) {
                     Ok((a, r)) => out.push(format!("{}:{}={}", i, a, r)),
                     Err(_) => out.push(format!("{}:panic", i)),
                 }
+            }
+            // after every thread has returned: a registration that overrode a built-in must still be in effect
+            if acts.iter().any(|a| a == "override") {
+                out.push(format!("final:max={}", show(execute("max(1, 2)", Context::new()))));
             }
             println!("{}", out.join(" "));
         }
